@@ -1,9 +1,280 @@
-import OciModel.Mem
-namespace OciModel.Props.C02
-open OciModel.Mem
+/-
+C02 — reference semantics of the in-memory registry model (`OciModel/Mem.lean`):
+the association lists are maps, listings are exact and sorted, tags resolve to
+the last accepted push, a manifest is accepted only when its references are
+sane, and the error-code table.
 
-/-- Looking up a key just inserted finds the inserted value. -/
-theorem alookup_ainsert {β} (k : Bytes) (v : β) (m : List (Bytes × β)) : alookup k (ainsert k v m) = some v := by
-  simp [ainsert, alookup]
+`H : Bytes → Bytes` is a parameter; nothing is assumed about it.
+-/
+import OciModel.MemLemmas
+
+namespace OciModel.Props.C02
+open OciModel OciModel.Mem
+
+variable (H : Bytes → Bytes)
+
+/-! ### R1. Key uniqueness -/
+
+/-- No duplicate keys in an association list. -/
+def NoDupKeys {β : Type} (m : List (Bytes × β)) : Prop := (m.map (·.1)).Nodup
+
+/-- The repository list and every repository's four maps have no duplicate keys. -/
+def KeysUnique (s : State) : Prop :=
+  NoDupKeys s.repos ∧
+  ∀ p ∈ s.repos, NoDupKeys p.2.tags ∧ NoDupKeys p.2.manifests ∧ NoDupKeys p.2.blobs ∧ NoDupKeys p.2.uploads
+
+theorem keysUnique_iff (s : State) : KeysUnique s ↔ Mem.KeysUnique s := Iff.rfl
+
+theorem keysUnique_init (imm : Bool) : KeysUnique (init imm) := Mem.ku_init imm
+
+theorem keysUnique_step (s : State) (op : Op) : KeysUnique s → KeysUnique (step H s op).1 :=
+  Mem.ku_step H s op
+
+theorem keysUnique_run (s : State) (ops : List Op) : KeysUnique s → KeysUnique (run H s ops).1 :=
+  Mem.ku_run H s ops
+
+/-- Under key uniqueness, membership in a map and lookup agree. -/
+theorem mem_iff_lookup {β : Type} {m : List (Bytes × β)} (hm : NoDupKeys m) (k : Bytes) (v : β) :
+    (k, v) ∈ m ↔ alookup k m = some v := Mem.mem_iff_alookup (show KU m from hm)
+
+/-! ### R2. Listings -/
+
+/-- Strictly ascending w.r.t. `compare` on byte strings (bytewise lexicographic). -/
+def StrictAscB (l : List Bytes) : Prop := l.Pairwise (fun a b => compare a b = .lt)
+
+theorem strictAscB_iff (l : List Bytes) : StrictAscB l ↔ Mem.StrictAscB l := Iff.rfl
+
+theorem strictAscB_nodup {l : List Bytes} (h : StrictAscB l) : l.Nodup := Mem.strictAsc_nodup h
+
+theorem keysAfter_sorted {β : Type} {m : List (Bytes × β)} (hm : NoDupKeys m) (start : Bytes) :
+    StrictAscB (keysAfter m start) := Mem.keysAfter_sorted (show KU m from hm) start
+
+theorem mem_keysAfter {β : Type} (m : List (Bytes × β)) (start k : Bytes) :
+    k ∈ keysAfter m start ↔ (k ∈ m.map (·.1) ∧ compare start k = .lt) := Mem.mem_keysAfter
+
+/-- Each key strictly after `start` is listed exactly once. -/
+theorem count_keysAfter {β : Type} {m : List (Bytes × β)} (hm : NoDupKeys m) (start k : Bytes) :
+    (keysAfter m start).count k = if k ∈ m.map (·.1) ∧ compare start k = .lt then 1 else 0 := by
+  rw [(strictAscB_nodup (keysAfter_sorted hm start)).count]
+  simp only [mem_keysAfter]
+
+/-- `Repositories(start)`: exactly the existing repositories strictly after
+`start`, each once, ascending; the state is unchanged. -/
+theorem repositories_listing {s : State} (hs : KeysUnique s) (start : Bytes) :
+    ∃ l, step H s (.repositories start) = (s, .okList l) ∧ StrictAscB l ∧ l.Nodup ∧
+      ∀ r, r ∈ l ↔ ((getRepo s r).isSome = true ∧ compare start r = .lt) := by
+  refine ⟨keysAfter s.repos start, rfl, keysAfter_sorted hs.1 start,
+    strictAscB_nodup (keysAfter_sorted hs.1 start), fun r => ?_⟩
+  rw [mem_keysAfter, getRepo, alookup_isSome_iff]
+
+/-- `Tags(r, start)` on a known repository: exactly its tags strictly after
+`start`, each once, ascending. -/
+theorem tags_listing {s : State} (hs : KeysUnique s) {r : Bytes} {rp : Repo} (hg : getRepo s r = some rp)
+    (start : Bytes) :
+    ∃ l, step H s (.tags r start) = (s, .okList l) ∧ StrictAscB l ∧ l.Nodup ∧
+      ∀ t, t ∈ l ↔ ((alookup t rp.tags).isSome = true ∧ compare start t = .lt) := by
+  have hk := (ku_getRepo hs hg).1
+  refine ⟨keysAfter rp.tags start, by simp [step, hg], keysAfter_sorted hk start,
+    strictAscB_nodup (keysAfter_sorted hk start), fun t => ?_⟩
+  rw [mem_keysAfter, alookup_isSome_iff]
+
+theorem tags_unknown_repo {s : State} {r : Bytes} (hg : getRepo s r = none) (start : Bytes) :
+    step H s (.tags r start) = (s, .err "NAME_UNKNOWN") := by
+  simp [step, hg]
+
+/-! ### R3. Referrers -/
+
+/-- Ascending by digest, possibly with equal neighbours. -/
+def AscDesc (l : List Desc) : Prop := l.Pairwise (fun a b => compare a.digest b.digest ≠ .gt)
+/-- Strictly ascending by digest. -/
+def StrictAscDesc (l : List Desc) : Prop := l.Pairwise (fun a b => compare a.digest b.digest = .lt)
+
+/-- `Referrers(r, d)` on a known repository: exactly the descriptors of the
+stored manifests whose subject is `d`, ascending by digest. -/
+theorem referrers_exact {s : State} {r : Bytes} {rp : Repo} (hg : getRepo s r = some rp) (d : Bytes) :
+    ∃ l, step H s (.referrers r d) = (s, .okDescs l) ∧ AscDesc l ∧
+      ∀ x, x ∈ l ↔ ∃ k b, (k, b) ∈ rp.manifests ∧ b.subject = d ∧ x = descOf H b :=
+  ⟨referrersOf H rp d, by simp [step, hg, referrersOf], referrersOf_asc H rp d, fun _ => mem_referrersOf H⟩
+
+/-- With the digest invariant and key uniqueness the result is strictly
+ascending: no digest is reported twice. -/
+theorem referrers_strict {s : State} (hinv : Mem.Inv H s) (hs : KeysUnique s) {r : Bytes} {rp : Repo}
+    (hg : getRepo s r = some rp) (d : Bytes) :
+    ∃ l, step H s (.referrers r d) = (s, .okDescs l) ∧ StrictAscDesc l :=
+  ⟨referrersOf H rp d, by simp [step, hg, referrersOf],
+    referrersOf_strict H d (hinv r rp hg).2 (ku_getRepo hs hg).2.1⟩
+
+theorem referrers_unknown_repo {s : State} {r : Bytes} (hg : getRepo s r = none) (d : Bytes) :
+    step H s (.referrers r d) = (s, .err "NAME_UNKNOWN") := by
+  simp [step, hg]
+
+/-! ### R4. A tag resolves to the last accepted push -/
+
+theorem tag_resolves_last_push {s s1 : State} {r t data mt : Bytes} {dec : Decoded} {dd : Desc}
+    (h : step H s (.pushManifest r t data mt dec) = (s1, .okDesc dd)) (ht : t ≠ []) :
+    step H s1 (.resolveTag r t) = (s1, .okDesc dd) ∧ dd.digest = H data :=
+  Mem.tag_resolves_last_push H h ht
+
+/-- When the push really stored (mutable tags, or the tag was new) `getTag`
+returns exactly the pushed bytes. -/
+theorem tag_gets_last_push {s s1 : State} {r t data mt : Bytes} {dec : Decoded} {dd : Desc}
+    (h : step H s (.pushManifest r t data mt dec) = (s1, .okDesc dd)) (ht : t ≠ [])
+    (hfresh : s.immutableTags = false ∨ ∀ rp, getRepo s r = some rp → alookup t rp.tags = none) :
+    step H s1 (.getTag r t) = (s1, .okRead ⟨mt, H data, data.length⟩ data) :=
+  Mem.tag_gets_last_push H h ht hfresh
+
+/-! ### R5. What an accepted manifest push implies -/
+
+/-- Either the push was the idempotent re-push under an immutable tag (nothing
+stored, the existing descriptor is returned), or the manifest decoded and every
+referenced descriptor looks sane, every referenced blob (kind 0) and manifest
+(kind 1) already existed in the repository; a subject (kind 2) may dangle. -/
+theorem manifest_accepted_only_if {s s1 : State} {r t data mt : Bytes} {dec : Decoded} {dd : Desc}
+    (h : step H s (.pushManifest r t data mt dec) = (s1, .okDesc dd)) :
+    Ref.isRepo r = true ∧ (t = [] ∨ Ref.isTag t = true) ∧
+    ((s1 = s ∧ t ≠ [] ∧ s.immutableTags = true ∧
+        ∃ rp, getRepo s r = some rp ∧ alookup t rp.tags = some dd ∧ dd.digest = H data ∧ dd.mediaType = mt)
+     ∨ (dd = ⟨mt, H data, data.length⟩ ∧ Ref.isDigest (H data) = true ∧ mt ≠ [] ∧ dec ≠ .malformed ∧
+        ∃ rs, decRefs dec = some rs ∧
+          ∀ ref ∈ rs, checkDescNil ref.desc = true ∧
+            (ref.kind = 0 → (alookup ref.desc.digest ((getRepo s r).getD emptyRepo).blobs).isSome = true) ∧
+            (ref.kind = 1 → (alookup ref.desc.digest ((getRepo s r).getD emptyRepo).manifests).isSome = true))) :=
+  Mem.manifest_accepted_only_if H h
+
+theorem decRefs_def : decRefs .opaque = some [] ∧ decRefs .malformed = none ∧
+    ∀ rs, decRefs (.refs rs) = some rs := ⟨rfl, rfl, fun _ => rfl⟩
+
+/-! ### R6. The error-code table -/
+
+/-- Read, resolve, delete and list operations on an unknown repository. -/
+theorem name_unknown {s : State} {r : Bytes} (hg : getRepo s r = none) (d : Bytes) (o0 o1 : Int) (op : Op)
+    (hop : op ∈ [Op.getBlob r d, .getBlobRange r d o0 o1, .getManifest r d, .getTag r d,
+      .resolveBlob r d, .resolveManifest r d, .resolveTag r d,
+      .deleteBlob r d, .deleteManifest r d, .deleteTag r d, .tags r d, .referrers r d]) :
+    step H s op = (s, .err "NAME_UNKNOWN") := by
+  simp only [List.mem_cons, List.not_mem_nil, or_false] at hop
+  rcases hop with rfl | rfl | rfl | rfl | rfl | rfl | rfl | rfl | rfl | rfl | rfl | rfl <;>
+    simp [step, blobFor, manifestFor, hg]
+
+/-- Known repository, missing blob. -/
+theorem blob_unknown {s : State} {r d : Bytes} {rp : Repo} (hg : getRepo s r = some rp)
+    (hl : alookup d rp.blobs = none) (o0 o1 : Int) (op : Op)
+    (hop : op ∈ [Op.getBlob r d, .getBlobRange r d o0 o1, .resolveBlob r d, .deleteBlob r d]) :
+    step H s op = (s, .err "BLOB_UNKNOWN") := by
+  simp only [List.mem_cons, List.not_mem_nil, or_false] at hop
+  rcases hop with rfl | rfl | rfl | rfl <;> simp [step, blobFor, hg, hl]
+
+/-- Known repository, missing manifest. -/
+theorem manifest_unknown {s : State} {r d : Bytes} {rp : Repo} (hg : getRepo s r = some rp)
+    (hl : alookup d rp.manifests = none) (op : Op)
+    (hop : op ∈ [Op.getManifest r d, .resolveManifest r d, .deleteManifest r d]) :
+    step H s op = (s, .err "MANIFEST_UNKNOWN") := by
+  simp only [List.mem_cons, List.not_mem_nil, or_false] at hop
+  rcases hop with rfl | rfl | rfl <;> simp [step, manifestFor, hg, hl]
+
+/-- Known repository, missing tag. -/
+theorem tag_unknown {s : State} {r t : Bytes} {rp : Repo} (hg : getRepo s r = some rp)
+    (hl : alookup t rp.tags = none) (op : Op)
+    (hop : op ∈ [Op.getTag r t, .resolveTag r t, .deleteTag r t]) :
+    step H s op = (s, .err "MANIFEST_UNKNOWN") := by
+  simp only [List.mem_cons, List.not_mem_nil, or_false] at hop
+  rcases hop with rfl | rfl | rfl <;> simp [step, hg, hl]
+
+/-- A tag whose manifest has been deleted reads as `MANIFEST_UNKNOWN`. -/
+theorem tag_dangling {s : State} {r t : Bytes} {rp : Repo} {td : Desc} (hg : getRepo s r = some rp)
+    (ht : alookup t rp.tags = some td) (hl : alookup td.digest rp.manifests = none) :
+    step H s (.getTag r t) = (s, .err "MANIFEST_UNKNOWN") := by
+  simp [step, hg, ht, hl]
+
+/-- An invalid repository name: `pushBlob` with a well-formed descriptor, and
+the other creating operations; the state is unchanged. -/
+theorem name_invalid {s : State} {r : Bytes} (hr : Ref.isRepo r = false) :
+    (∀ desc data, checkDescData H desc data = none →
+        step H s (.pushBlob r desc data) = (s, .err "NAME_INVALID")) ∧
+    step H s (.pushChunked r) = (s, .err "NAME_INVALID") ∧
+    (∀ id off, step H s (.resume r id off) = (s, .err "NAME_INVALID")) ∧
+    (∀ fromR d, step H s (.mount fromR r d) = (s, .err "NAME_INVALID")) ∧
+    (∀ t data mt dec, step H s (.pushManifest r t data mt dec) = (s, .err "NAME_INVALID")) := by
+  have hm : makeRepo s r = none := makeRepo_eq_none.mpr hr
+  refine ⟨fun desc data hc => ?_, ?_, fun _ _ => ?_, fun _ _ => ?_, fun _ _ _ _ => ?_⟩ <;>
+    simp [step, *]
+
+/-- A chunk written at the wrong offset is refused and changes nothing. -/
+theorem write_wrong_offset {s : State} {r id : Bytes} {rp : Repo} {b : Buffer}
+    (hb : getBuffer s r id = some (rp, b)) (h1 : b.checkStart ≠ -1) (h2 : (b.buf.length : Int) ≠ b.checkStart)
+    (data : Bytes) : step H s (.wWrite r id data) = (s, .err "RANGE_INVALID") := by
+  simp [step, hb, h1, h2]
+
+/-- Committing under a digest that is not the hash of the uploaded bytes.
+(The upload must not already have failed or been cancelled: a sticky earlier
+error is reported instead, see `commit_error_sticky`.) -/
+theorem commit_wrong_digest {s : State} {r id dig : Bytes} {rp : Repo} {b : Buffer}
+    (hb : getBuffer s r id = some (rp, b)) (hc : b.commitErr = none) (hne : H b.buf ≠ dig) :
+    (step H s (.wCommit r id dig)).2 = .err "DIGEST_INVALID" := by
+  simp [step, hb, hc, hne]
+
+theorem commit_error_sticky {s : State} {r id dig : Bytes} {rp : Repo} {b : Buffer} {e : String}
+    (hb : getBuffer s r id = some (rp, b)) (hc : b.commitErr = some e) :
+    step H s (.wCommit r id dig) = (s, .err e) := by
+  simp [step, hb, hc]
+
+/-! ### The hypotheses are satisfiable: a concrete run with a toy hash -/
+
+/-- A toy hash with well-formed digest text, depending on the length only. -/
+def toyH : Bytes → Bytes := fun b =>
+  Ref.sha256 ++ [58] ++ List.replicate 64 (48 + (b.length % 10).toUInt8)
+
+def repoA : Bytes := [97]
+def repoB : Bytes := [98]
+def mtX : Bytes := [120]
+def blob1 : Bytes := [1]
+def man1 : Bytes := [1, 2]      -- refers to `blob1`
+def man2 : Bytes := [1, 2, 3]   -- refers to `man1` as subject
+def tagV1 : Bytes := [118, 49]
+def tagV2 : Bytes := [118, 50]
+
+def demoOps : List Op :=
+  [ .pushBlob repoB ⟨mtX, toyH blob1, 1⟩ blob1,
+    .pushBlob repoA ⟨mtX, toyH blob1, 1⟩ blob1,
+    .pushManifest repoA tagV2 man1 mtX (.refs [⟨0, ⟨mtX, toyH blob1, 1⟩⟩]),
+    .pushManifest repoA tagV1 man2 mtX (.refs [⟨2, ⟨mtX, toyH man1, 2⟩⟩]) ]
+
+def demoState : State := (run toyH (init false) demoOps).1
+
+example : KeysUnique demoState := keysUnique_run toyH _ _ (keysUnique_init false)
+
+example : (run toyH (init false) demoOps).2 =
+    [.okDesc ⟨mtX, toyH blob1, 1⟩, .okDesc ⟨mtX, toyH blob1, 1⟩,
+     .okDesc ⟨mtX, toyH man1, 2⟩, .okDesc ⟨mtX, toyH man2, 3⟩] := by decide
+
+/-- Listings are sorted although the insertion order was not. -/
+example : (step toyH demoState (.repositories [])).2 = .okList [repoA, repoB] := by decide
+example : (step toyH demoState (.tags repoA [])).2 = .okList [tagV1, tagV2] := by decide
+example : (step toyH demoState (.tags repoA tagV1)).2 = .okList [tagV2] := by decide
+
+example : (step toyH demoState (.referrers repoA (toyH man1))).2 = .okDescs [⟨mtX, toyH man2, 3⟩] := by decide
+
+example : step toyH demoState (.getTag repoA tagV1) = (demoState, .okRead ⟨mtX, toyH man2, 3⟩ man2) := by decide
+
+/-- A manifest naming a blob that is not in the repository is refused … -/
+example : (step toyH demoState (.pushManifest repoB [] man1 mtX (.refs [⟨0, ⟨mtX, toyH man2, 3⟩⟩]))).2
+    = .err "ERR" := by decide
+/-- … but a dangling subject is accepted. -/
+example : (step toyH demoState (.pushManifest repoB [] man1 mtX (.refs [⟨2, ⟨mtX, toyH man2, 3⟩⟩]))).2
+    = .okDesc ⟨mtX, toyH man1, 2⟩ := by decide
+
+/-- Observation: a *failed* `mount` (unknown source) or `pushManifest` still
+creates the empty destination repository, which then shows up in listings. -/
+example : (step toyH (init false) (.mount repoB repoA (toyH blob1))).2 = .err "NAME_UNKNOWN" ∧
+    (step toyH (step toyH (init false) (.mount repoB repoA (toyH blob1))).1 (.repositories [])).2
+      = .okList [repoA] := by decide
+
+example : (step toyH (init false) (.pushManifest repoA [] man1 mtX .malformed)).2 = .err "ERR" ∧
+    (step toyH (step toyH (init false) (.pushManifest repoA [] man1 mtX .malformed)).1 (.repositories [])).2
+      = .okList [repoA] := by decide
+
+/-- Observation: mounting within one not-yet-existing repository reports `BLOB_UNKNOWN`, not
+`NAME_UNKNOWN`, because the destination is created before the source is looked up. -/
+example : (step toyH (init false) (.mount repoA repoA (toyH blob1))).2 = .err "BLOB_UNKNOWN" := by decide
 
 end OciModel.Props.C02
